@@ -141,7 +141,7 @@ def o0(ctx, dynamic):
         return g
 
     ctx.verify("dynamic" if dynamic else "ess", RW, "Reweighter._compute_metric_and_weights", setup, post,
-               registry=reg, extras={"numpy.max": max_override, **pbar_ext()})
+               registry=reg, extras={"numpy.max": max_override, **pbar_ext()}, replayer="c05_schedule")
 
 
 # --------------------------------------------------------------------------- O1: _find_beta_upper_limit
@@ -169,7 +169,7 @@ def o1(ctx):
                 ("ess-floor", z3.Implies(ESS(bc) >= tgt, ESS(r) >= tgt))]
 
     ctx.verify("", RW, "Reweighter._find_beta_upper_limit", setup, post, loops={0: LoopSpec(inv)},
-               registry=registry_b(False), extras=EXTRAS)
+               registry=registry_b(False), extras=EXTRAS, replayer="c05_schedule")
 
 
 # --------------------------------------------------------------------------- O2: _find_beta_bisection
@@ -202,7 +202,7 @@ def o2(ctx, dynamic):
                 ("aux-belongs-to-returned-beta", aux == AUXf(b))]
 
     ctx.verify("dynamic" if dynamic else "ess", RW, "Reweighter._find_beta_bisection", setup, post,
-               loops={0: LoopSpec(inv)}, registry=registry_b(dynamic), extras=EXTRAS)
+               loops={0: LoopSpec(inv)}, registry=registry_b(dynamic), extras=EXTRAS, replayer="c05_schedule")
 
 
 # --------------------------------------------------------------------------- _finalize_iteration
@@ -232,7 +232,7 @@ def o_fin(ctx):
     def pre_cur(info, pre):
         return current_of(pre, info["sm"])
 
-    ctx.verify("", RW, "Reweighter._finalize_iteration", setup, post, registry=registry_b(False), extras=EXTRAS)
+    ctx.verify("", RW, "Reweighter._finalize_iteration", setup, post, registry=registry_b(False), extras=EXTRAS, replayer="c05_schedule")
 
 
 # --------------------------------------------------------------------------- run
@@ -321,7 +321,7 @@ def o_run(ctx, dynamic, history):
         return g
 
     ctx.verify(f"{'dynamic' if dynamic else 'ess'}-{history}", RW, "Reweighter.run", setup, post,
-               registry=reg, extras=EXTRAS)
+               registry=reg, extras=EXTRAS, replayer="c05_schedule")
 
 
 def o_init(ctx):
@@ -338,7 +338,7 @@ def o_init(ctx):
         return [("beta-starts-at-zero", z3.And(to_z3(cur["beta"], "real") == 0, to_z3(cur["logz"], "real") == 0,
                                                to_z3(cur["iter"], "int") == 0, to_z3(cur["calls"], "int") == 0))]
 
-    ctx.verify("", CORE, "SamplerCore._initialize_fresh", setup, post, registry=state_registry())
+    ctx.verify("", CORE, "SamplerCore._initialize_fresh", setup, post, registry=state_registry(), replayer="c05_schedule")
 
 
 def run(ctx):
